@@ -207,6 +207,7 @@ class World:
         that tag (or is funded by a coinbase output when the tag is new) and pays to the tag's
         script again, so the tag's hashX history grows by one per tx."""
         height = self.bp.state.height + 1
+        utxo_before = dict(self.utxo)
         cb_outs = [(50_0000_0000, script_for(0))]
         new_tags = []
         for tag in txs_spec:
@@ -254,9 +255,39 @@ class World:
         os.unlink(path)
         del self.OnDiskBlock.blocks[hex_hash]
         self.blocks.append((hex_hash, header, tx_hashes))
+        if not hasattr(self, 'undo_book'):
+            self.undo_book = []
+        self.undo_book.append((hex_hash, raw_block, height, utxo_before))
         for raw, h in zip(raws, tx_hashes):
             self.daemon.raw_txs[hash_to_hex_str(h)] = raw.hex()
         return set(touched)
+
+    async def remove_block(self):
+        """Back the tip block out with the real `BlockProcessor.backup_block` (undo information must exist:
+        the world keeps `reorg_limit` blocks).  The index must be fully flushed.  Returns the touched hashXs."""
+        hex_hash, raw_block, height, utxo_before = self.undo_book.pop()
+        assert height == self.bp.state.height
+        path = os.path.join(self.dir, 'meta', 'blocks', f'{height:d}-{hex_hash}')
+        with open(path, 'wb') as f:
+            f.write(raw_block)
+        self.OnDiskBlock.blocks[hex_hash] = (height, len(raw_block))
+        blk = await self.OnDiskBlock.streamed_block(hex_hash)
+        self.bp.touched = set()
+        self.bp.backup_block(blk)
+        assert self.bp.ok and self.bp.state.height == height - 1
+        if getattr(self.db, 'header_mc', None) is not None:
+            self.db.header_mc.truncate(self.bp.state.height + 1)
+        if os.path.exists(path):
+            os.unlink(path)
+        self.OnDiskBlock.blocks.pop(hex_hash, None)
+        self.blocks.pop()
+        self.utxo = utxo_before
+        for lst in self.history.values():
+            lst[:] = [e for e in lst if e[1] != height]
+        self.daemon._height = height - 1
+        touched = set(self.bp.touched)
+        self.bp.touched = set()
+        return touched
 
     def _note(self, hashX, tx_hash, height):
         lst = self.history.setdefault(hashX, [])
